@@ -3,7 +3,7 @@ import XpmVerif.Model.FileTokens
 /-! Line-protocol driver for M2' (file-based tokens, several processes): C08 / C09 file part.
     {"op":"init","total":n,"nproc":k,"req":[[name,count],…],"tolerant":b,"notifyMissing":b}
     {"op":"ev","e":["acquireBegin",p,f] | ["acquireEnd",p] | ["release",p,f] | ["fsEvent",p]
-                  | ["reclaim",p,f] | ["jobGone",f] | ["drop",p] | ["restart",p]}
+                  | ["reclaim",p,f] | ["jobGone",f] | ["drop",p] | ["restart",p] | ["recreate",p]}
     output: {"enabled":b,"ok":b,"notify":b,"disk":…,"procs":…,"ipc":…,"active":…} -/
 open Lean XpmVerif XpmVerif.J XpmVerif.FileTokens
 
@@ -34,6 +34,7 @@ def observe (d : DSt) (en : Bool) (o : Out) : Json :=
         let P := s.procs p
         Json.mkObj [("cache", Json.arr ((sortNat P.cache).map fun (f : Nat) => (f : Json)).toArray),
                     ("avail", (P.avail : Json)), ("alive", P.alive), ("dropped", P.dropped),
+                    ("total", (d.cfg.total : Json)), ("nobj", (1 : Nat)),
                     ("pending", Json.arr (P.pending.map evJ).toArray),
                     ("watch", Json.arr ((sortNat P.watch).map fun (f : Nat) => (f : Json)).toArray)]).toArray),
     ("ipc", match s.ipc with | some (p, f) => Json.arr #[(p : Json), (f : Json)] | none => Json.null),
@@ -60,6 +61,7 @@ def stepJ (d : DSt) (j : Json) : DSt × Json :=
       | "jobGone" => some (.jobGone (a 1))
       | "drop" => some (.drop (a 1))
       | "restart" => some (.restart (a 1))
+      | "recreate" => some (.recreate (a 1))
       | _ => none
     match ev with
     | none => (d, Json.mkObj [("error", Json.str "bad-event")])
